@@ -70,7 +70,7 @@ class CallGraph:
         return None
 
     # -- resolution ---------------------------------------------------------------------------
-    def resolve_callee(self, mod: Module, site: ast.AST, callee: ast.AST) -> Optional[Tuple[Module, ast.AST]]:
+    def resolve_callee(self, mod: Module, site: ast.AST, callee: ast.AST, _depth: int = 0) -> Optional[Tuple[Module, ast.AST]]:
         """In-package function (or class) that `callee` denotes at `site`, else None."""
         if isinstance(callee, ast.Name):
             # closure / local nested def
@@ -125,6 +125,23 @@ class CallGraph:
                                 r2 = self.find_method(r[1], r[2], callee.attr)
                                 if r2:
                                     return r2
+            # receiver is a local bound to the result of an in-package function whose return annotation names an
+            # in-package class: `cache = get_template_cache()` (-> LRUCache)
+            if isinstance(base, ast.Name):
+                f = enclosing_func(site)
+                if f is not None:
+                    for n in body_walk(f):
+                        if isinstance(n, (ast.Assign, ast.AnnAssign)) and isinstance(n.value, ast.Call):
+                            tg = n.targets if isinstance(n, ast.Assign) else [n.target]
+                            if any(isinstance(t, ast.Name) and t.id == base.id for t in tg):
+                                fn = self.resolve_callee(mod, n, n.value.func, _depth + 1) if _depth < 2 and isinstance(n.value.func, ast.Name) else None
+                                if fn is not None and isinstance(fn[1], (ast.FunctionDef, ast.AsyncFunctionDef)) and fn[1].returns is not None:
+                                    ann = fn[1].returns.value if isinstance(fn[1].returns, ast.Subscript) else fn[1].returns
+                                    r = self.proj.resolve_expr(fn[0], ann)
+                                    if r and r[0] == "def" and isinstance(r[2], ast.ClassDef):
+                                        r2 = self.find_method(r[1], r[2], callee.attr)
+                                        if r2:
+                                            return r2
             # unique in-package method name (receiver type unknown; never for self/cls receivers)
             if callee.attr not in _GENERIC and not (isinstance(base, ast.Name) and base.id in ("self", "cls")):
                 cands = self._methods_by_name.get(callee.attr, [])
